@@ -3,14 +3,16 @@ import os, json, glob
 HERE = os.path.dirname(os.path.abspath(__file__))
 VERIF = os.path.dirname(HERE)
 rows = []
+metas = {}
 for d in sorted(glob.glob(os.path.join(VERIF, 'seeded', '*', 'meta.json'))):
     name = os.path.basename(os.path.dirname(d))
     meta = json.load(open(d))
+    metas[name] = meta
     det = {}
     p = os.path.join(os.path.dirname(d), 'detection.json')
     if os.path.exists(p):
         det = json.load(open(p))
-    target = name.split('-')[0].rstrip('b')
+    target = name[:3]
     by = det.get('detected_by')
     wi = det.get('with_failing_input', [])
     rows.append((name, target, meta.get('summary', '')[:150].replace('|', '/').replace('\n', ' '), by, wi))
@@ -29,6 +31,9 @@ for name, target, summ, by, wi in rows:
     ok = target in by
     hit += ok
     miss += (not ok)
+    note = metas[name].get('outside_quantifier')
+    if note and not ok:
+        summ = '**outside the property\'s schedule space: %s** ' % note + summ
     lines.append('| %s | %s | %s | %s | %s | %s |' % (name, target, 'yes' if ok else '**NO**', 'yes' if target in wi else ('-' if ok else ''),
                                                   ' '.join(b for b in by if b != target), summ))
 lines += ['', 'Summary: %d seeded changes, %d reported by the check of the property they target, %d not, %d not run.' % (len(rows), hit, miss, notrun), '']
